@@ -38,6 +38,9 @@ pub enum Target {
     Two(u16, u16),
     /// an identifier no subscribe() ever used
     Unknown,
+    /// the identifiers of ALL subscriptions on the wire, in registration order / reversed
+    All,
+    AllReversed,
 }
 
 /// Acknowledgement decoration (unique per ack thanks to the op index added by the sim).
@@ -889,6 +892,8 @@ impl<'a> Sim<'a> {
                     ids.push(200_000_000);
                 }
             }
+            Target::All => dest.extend(subs.iter().copied()),
+            Target::AllReversed => dest.extend(subs.iter().rev().copied()),
             Target::Two(a, b) => {
                 if let (Some(x), Some(y)) = (idx(a, subs.len()), idx(b, subs.len())) {
                     dest.push(subs[x]);
